@@ -463,10 +463,14 @@ func buildServer(c MCase, fx *mFixture, audit *bytes.Buffer) *Server {
 	if err != nil {
 		role = Role(c.Role)
 	}
+	cfgPath := fx.cfg
+	if c.NoCfg {
+		cfgPath = ""
+	}
 	return NewServer(
 		strings.NewReader(""),
 		&bytes.Buffer{},
-		fx.cfg,
+		cfgPath,
 		fx.db,
 		WithRole(role),
 		WithPrincipal(c.Principal),
@@ -617,6 +621,13 @@ func runMCase(c MCase, tolerateKnown bool) mOutcome {
 	}
 	cfgClass := fx.classifyPathArg(args, "path", fx.cfg)
 	pidClass := fx.classifyPathArg(args, "pid_file", fx.pid)
+	if c.NoCfg {
+		labels["no-configured-config-path"] = true
+		switch cfgClass {
+		case "exact", "alias":
+			cfgClass = "foreign" // nothing is configured: every named path is a foreign one
+		}
+	}
 	if v.Known && (v.Doc.CfgWriter || strings.HasPrefix(c.Tool, "config_")) && cfgClass != "absent" {
 		labels["config-path:"+cfgClass] = true
 		if cfgClass == "foreign" && v.Doc.CfgWriter {
